@@ -131,14 +131,14 @@ fn sub_threshold<C: Suite>(
 
     // (a) honest signer refuses a package with fewer than t commitments
     for id in holders {
-        match frost_core::round2::sign(&pkg, &nonces[id], &grp.kps[id]) {
+        match C::api_sign(&pkg, &nonces[id], &grp.kps[id]) {
             Err(e) => ctx.count(&format!("sign_refused/{}", err_name(&e))),
             Ok(_) => ctx.viol("signer-accepts-sub-threshold-package", "", d("sign returned Ok for <t commitments")),
         }
     }
     // (d) reconstruct with honest thresholds refuses
     let honest_kps: Vec<KeyPackage<C>> = holders.iter().map(|i| grp.kps[i].clone()).collect();
-    match frost_core::keys::reconstruct(&honest_kps) {
+    match C::api_reconstruct(&honest_kps) {
         Err(e) => ctx.count(&format!("reconstruct_refused/{}", err_name(&e))),
         Ok(key) => {
             ctx.viol("reconstruct-accepts-sub-threshold", "", d("reconstruct returned Ok for <t honest packages"));
@@ -157,7 +157,7 @@ fn sub_threshold<C: Suite>(
         })
         .collect();
     let lying_vec: Vec<_> = lying.values().cloned().collect();
-    match frost_core::keys::reconstruct(&lying_vec) {
+    match C::api_reconstruct(&lying_vec) {
         Ok(key) => {
             if g::<C>() * key.to_scalar() == vk.to_element() {
                 ctx.viol("sub-threshold-recovers-key", "reconstruct-lowered", d("reconstruct of <t lowered packages returned the group key"));
@@ -168,7 +168,7 @@ fn sub_threshold<C: Suite>(
     }
     let mut shares = BTreeMap::new();
     for id in holders {
-        match frost_core::round2::sign(&pkg, &nonces[id], &lying[id]) {
+        match C::api_sign(&pkg, &nonces[id], &lying[id]) {
             Ok(s) => {
                 shares.insert(*id, s);
             }
